@@ -792,6 +792,7 @@ class Interleaver:
         self.sites = set()
         self.blocked = 0
         self.pending = []
+        self.last_n = 0
 
     def _ours(self, code):
         f = code.co_filename
@@ -827,6 +828,11 @@ class Interleaver:
         except BaseException:           # the twin's own outcome is nobody's business here
             pass
 
+    def count_boundaries(self, call):
+        """Runs call() once and returns how many statement boundaries inside the library it passes (and its result)."""
+        res, _ = self.run(1 << 60, None, call)
+        return self.last_n, res
+
     def run(self, k, twin, call):
         """call() with twin() injected at the k-th statement boundary inside the library.  Returns (result, injected)."""
         mon = sys.monitoring
@@ -843,6 +849,7 @@ class Interleaver:
             mon.set_events(self.TOOL, 0)
             mon.register_callback(self.TOOL, mon.events.LINE, None)
             injected = self.state == 'done'
+            self.last_n = self.n
             self.state = 'off'
             self.twin = None
             for t in self.pending:
@@ -860,8 +867,17 @@ def interleaved(ctx, k, twin, call):
     il = _INTERLEAVER.get(root)
     if il is None:
         il = _INTERLEAVER[root] = Interleaver(root)
-    res, injected = il.run(k, twin, call)
+    # k is a position in per mille of the call's own length: a first, plain execution of the same call counts the statement
+    # boundaries it passes inside the library (callees included - a call may spend hundreds of them in a helper before it
+    # reaches the statement that matters); the judged execution then gets the twin at boundary 1 + n k / 1000
+    try:
+        n, _ = il.count_boundaries(call)
+    except Exception:
+        n = 0
+    at = 1 + (n * (int(k) % 1000)) // 1000 if n else 1
+    res, injected = il.run(at, twin, call)
     ctx.count('interleaved_calls_with_a_twin_call_injected' if injected else 'interleaved_calls_that_ended_before_the_chosen_boundary')
+    ctx.maxi('statement_boundaries_inside_one_interleaved_call', n)
     ctx.info['interleaving_sites_seen'] = sorted(il.sites)[:40]
     if il.blocked:
         ctx.info['interleaved_twins_that_waited_for_a_lock_of_the_judged_call'] = il.blocked
@@ -875,7 +891,7 @@ def interleave_of(case, p=0.04, kmax=45):
     if il:
         return il.get('at')
     h = int(stable_hash([case, 'interleave']), 16)
-    return 1 + (h >> 12) % kmax if h % 1000 < p * 1000 else None
+    return 1 + (h >> 12) % 999 if h % 1000 < p * 1000 else None
 
 
 def case_rnd(case, salt='twin'):
@@ -893,8 +909,8 @@ def maybe_interleaved(ctx, case, twin, call, p=0.04, kmax=45):
 
 
 def choose_interleave(rnd, p=0.04, kmax=45):
-    """None, or the index of the statement boundary at which the twin call is injected."""
-    return rnd.randint(1, kmax) if rnd.random() < p else None
+    """None, or the position (per mille of the call's statement boundaries) at which the twin call is injected."""
+    return rnd.randint(1, 999) if rnd.random() < p else None
 
 
 _UNJUDGED_HUNG = set()
